@@ -293,7 +293,10 @@ def _fstring_patterns(quote: str, raw: bool) -> str:
 
 def _fstring_spec_patterns(quote: str) -> str:
     q = quote[0]
-    text = rf"(?:[^{q}\\{{}}]|\\[\s\S])*"
+    body = rf"[^{q}\\{{}}]|\\[\s\S]"
+    if len(quote) == 3:
+        body += rf"|{q}(?!{q}{q})"
+    text = f"(?:{body})*"
     return choice(LBrace=text + r"\{", RBrace=text + r"\}")
 
 
